@@ -89,6 +89,24 @@ type Case struct {
 	Asks    []int32 `json:"asks,omitempty"`
 }
 
+// The one class that is a recorded finding on this tree (known_findings.txt): it is recorded once per run and
+// does not count against the failure budget that ends the exploration early.
+const staleClockClass = "c08.tokens-rate-stale-clock"
+
+var staleClockRecorded int
+
+func recordFailure(c *rig.Ctx, f rig.Failure) {
+	if f.Class == staleClockClass {
+		if staleClockRecorded > 0 {
+			return
+		}
+		staleClockRecorded++
+	}
+	c.Fail(f)
+}
+
+func otherFailures(c *rig.Ctx) int { return c.NFailures() - staleClockRecorded }
+
 // ------------------------------------------------------------------------------------------------
 // the real code
 
@@ -332,7 +350,7 @@ func runSeq(c *rig.Ctx, cs Case, record bool) runResult {
 	res := runResult{ok: true, features: map[string]bool{}}
 	fail := func(kind, class, what string, impl, model interface{}) runResult {
 		if record {
-			c.Fail(rig.Failure{Kind: kind, Class: class, What: what, Case: cs, Impl: impl, Model: model})
+			recordFailure(c, rig.Failure{Kind: kind, Class: class, What: what, Case: cs, Impl: impl, Model: model})
 		}
 		res.ok = false
 		return res
@@ -461,7 +479,7 @@ func shrinkSeq(c *rig.Ctx, cs Case) Case {
 func runBucket(c *rig.Ctx, cs Case, record bool) bool {
 	fail := func(kind, class, what string, impl, model interface{}) bool {
 		if record {
-			c.Fail(rig.Failure{Kind: kind, Class: class, What: what, Case: cs, Impl: impl, Model: model})
+			recordFailure(c, rig.Failure{Kind: kind, Class: class, What: what, Case: cs, Impl: impl, Model: model})
 		}
 		return false
 	}
@@ -479,6 +497,7 @@ func runBucket(c *rig.Ctx, cs Case, record bool) bool {
 	var m struct {
 		Ok      []bool `json:"ok"`
 		Windows *bool  `json:"windows"`
+		Tight   int    `json:"tight"`
 	}
 	if err := c.Model("C08.bucket", map[string]interface{}{"qps": cs.QPS, "burst": cs.Burst, "calls": cs.Calls, "impl": oks}, &m); err != nil {
 		return fail("diff", "c08.model-error", "model error: "+err.Error(), nil, nil)
@@ -495,8 +514,16 @@ func runBucket(c *rig.Ctx, cs Case, record bool) bool {
 			nonneg = false
 		}
 	}
-	if monotone && nonneg && m.Windows != nil && !*m.Windows {
-		return fail("judge", "c08.tokens-rate", fmt.Sprintf("qps=%d burst=%d: some window of the granted calls exceeds burst + qps*T: calls %s granted %v", cs.QPS, cs.Burst, rig.Canon(cs.Calls), oks), oks, m.Ok)
+	if m.Tight > 0 {
+		c.Count("bucket:knife-edge-calls-following-impl")
+	}
+	if nonneg && m.Windows != nil && !*m.Windows {
+		class, why := "c08.tokens-rate", "clock readings in order"
+		if !monotone {
+			// some readings are older than one the limiter has already seen (what concurrent callers produce)
+			class, why = staleClockClass, "some clock readings stale, windows measured in true time"
+		}
+		return fail("judge", class, fmt.Sprintf("qps=%d burst=%d (%s): some window of the granted calls exceeds burst + qps*T: calls %s granted %v", cs.QPS, cs.Burst, why, rig.Canon(cs.Calls), oks), oks, m.Ok)
 	}
 	if rig.Canon(oks) != rig.Canon(m.Ok) {
 		return fail("diff", "c08.bucket", fmt.Sprintf("qps=%d burst=%d calls %s: limiter answered %v, model %v", cs.QPS, cs.Burst, rig.Canon(cs.Calls), oks, m.Ok), oks, m.Ok)
@@ -537,7 +564,7 @@ type concOutcome struct {
 func runConc(c *rig.Ctx, cs Case, record bool) bool {
 	fail := func(kind, class, what string, impl, model interface{}) bool {
 		if record {
-			c.Fail(rig.Failure{Kind: kind, Class: class, What: what, Case: cs, Impl: impl, Model: model})
+			recordFailure(c, rig.Failure{Kind: kind, Class: class, What: what, Case: cs, Impl: impl, Model: model})
 		}
 		return false
 	}
@@ -685,7 +712,7 @@ type grant struct {
 func runRate(c *rig.Ctx, cs Case, record bool) bool {
 	fail := func(kind, class, what string) bool {
 		if record {
-			c.Fail(rig.Failure{Kind: kind, Class: class, What: what, Case: cs})
+			recordFailure(c, rig.Failure{Kind: kind, Class: class, What: what, Case: cs})
 		}
 		return false
 	}
@@ -764,14 +791,18 @@ func runRate(c *rig.Ctx, cs Case, record bool) bool {
 		return ""
 	}
 	total := time.Since(base)
+	rateClass := "c08.tokens-rate"
+	if cs.Workers > 1 {
+		rateClass = staleClockClass
+	}
 	if msg := check(0, total); msg != "" {
-		return fail("judge", "c08.tokens-rate", msg)
+		return fail("judge", rateClass, fmt.Sprintf("%d concurrent callers: %s", cs.Workers, msg))
 	}
 	for k := 0; k < 40; k++ {
 		lo := time.Duration(c.Rng.Int63n(int64(total) + 1))
 		hi := lo + time.Duration(c.Rng.Int63n(int64(total-lo)+1))
 		if msg := check(lo, hi); msg != "" {
-			return fail("judge", "c08.tokens-rate", msg)
+			return fail("judge", rateClass, fmt.Sprintf("%d concurrent callers: %s", cs.Workers, msg))
 		}
 	}
 	var sum int64
@@ -860,7 +891,7 @@ func main() {
 		g := &gen{r: c.Rng}
 		// 2. sequential op lists
 		nSeq := c.Budget(2500, 60000)
-		for i := 0; i < nSeq && c.NFailures() < 5; i++ {
+		for i := 0; i < nSeq && otherFailures(c) < 5; i++ {
 			cs := g.seqCase(i)
 			r := runSeq(c, cs, false)
 			nontrivial := r.features["rolled-back"] || r.features["stale-id"] || r.features["applied-not-accepted"] || r.features["removal"] || r.features["acq-halved"] || r.features["acq-err-NegativeTokens"]
@@ -876,7 +907,7 @@ func main() {
 		}
 		// 3. scripted bucket
 		nB := c.Budget(1500, 30000)
-		for i := 0; i < nB && c.NFailures() < 5; i++ {
+		for i := 0; i < nB && otherFailures(c) < 5; i++ {
 			cs := g.bucketCase()
 			c.Case(rig.Canon(cs), true, "bucket", func() interface{} { return cs })
 			c.Trace()
@@ -888,7 +919,7 @@ func main() {
 		}
 		// 4. concurrent
 		nC := c.Budget(60, 600)
-		for i := 0; i < nC && c.NFailures() < 5; i++ {
+		for i := 0; i < nC && otherFailures(c) < 5; i++ {
 			cs := g.concCase(i, c.Budget(300, 2000))
 			c.Case(rig.Canon(cs), true, "conc:"+g.lastStream, func() interface{} { return cs })
 			c.Trace()
@@ -896,7 +927,7 @@ func main() {
 		}
 		// 5. real-time totals
 		nR := c.Budget(5, 40)
-		for i := 0; i < nR && c.NFailures() < 5; i++ {
+		for i := 0; i < nR && otherFailures(c) < 5; i++ {
 			cs := g.rateCase(c.Budget(120, 400))
 			c.Case(rig.Canon(cs), true, "rate", func() interface{} { return cs })
 			c.Trace()
